@@ -9,7 +9,9 @@ import itertools
 
 NAMES = ["a", "b", "c", "d", "p", "q", "s", "ps", "f", "g", "arr", "x", "y", "n", "r", "m"]
 NID = {n: i for i, n in enumerate(NAMES)}
-PRELUDE = ("struct S { int x; int y; struct S *n; int (*m)(int); }; int a,b,c,d,r; int *p; int *q; struct S s; "
+TYPES = ["int", "unsigned char", "int *", "T *", "struct S *", "long", "T"]
+TYPEWORDS = {"int", "unsigned", "char", "long", "short", "signed", "T", "struct", "S", "*"}
+PRELUDE = ("typedef int T; struct S { int x; int y; struct S *n; int (*m)(int); }; int a,b,c,d,r; int *p; int *q; struct S s; "
            "struct S *ps; int (*f)(int,int); int (*g)(int); int arr[10];")
 OPR = ["+", "-", "*", "/", "%", "&", "|", "^", "<<", ">>", "<", "<=", ">", ">=", "<=>", "==", "!=", "&&", "||",
        "!", "~", "++", "--", "=", "+=", "-=", "*=", "/=", "%=", "&=", "|=", "^=", "<<=", ">>="]
@@ -18,7 +20,7 @@ PRE = ["+", "-", "!", "~", "*", "&", "++", "--"]
 BIN = ["*", "/", "%", "+", "-", "<<", ">>", "<=>", "<", "<=", ">", ">=", "==", "!=", "&", "^", "|", "&&", "||"]
 ASG = ["=", "+=", "-=", "*=", "/=", "%=", "&=", "|=", "^=", "<<=", ">>="]
 BIN_PREC = [13, 13, 13, 12, 12, 11, 11, 10, 9, 9, 9, 9, 8, 8, 7, 6, 5, 4, 3]
-ARITY = {'i': 0, 'n': 0, 'p': 1, 'q': 1, 'b': 2, 'a': 2, 'c': 3, 'k': 2, 'f': 1, 'g': 2, 'x': 2, 'm': 1, 'r': 1}
+ARITY = {'t': 1, 'i': 0, 'n': 0, 'p': 1, 'q': 1, 'b': 2, 'a': 2, 'c': 3, 'k': 2, 'f': 1, 'g': 2, 'x': 2, 'm': 1, 'r': 1}
 
 
 def kids(e):
@@ -43,7 +45,7 @@ def fields(e):
     t = e[0]
     if t in "in":
         out = [("%s%d" % (t, e[1])).encode()]
-    elif t in "pqbam":
+    elif t in "pqbamt":
         out = [("%s%d" % (t, e[1])).encode()]
     else:
         out = [t.encode()]
@@ -56,7 +58,7 @@ def prec(e):
     t = e[0]
     if t in "inr":
         return 17
-    if t == 'p':
+    if t in 'pt':
         return 15
     if t in "qfgxm":
         return 16
@@ -98,6 +100,8 @@ def show(e):
         return "%s . %s" % (sub(16, e[2]), NAMES[e[1]])
     if t == 'r':
         return "( %s )" % show(e[1])
+    if t == 't':
+        return "( %s ) %s" % (TYPES[e[1]], sub(15, e[2]))
     raise ValueError(e)
 
 
@@ -111,6 +115,8 @@ def tokfield_text(f):
         return f[1:]
     if f[0] == 'o':
         return OPR[int(f[1:])]
+    if f[0] == 't':
+        return TYPES[int(f[1:])]
     return f
 
 
@@ -131,6 +137,32 @@ def text_tokfield(s, flags, prev):
     return None
 
 
+def type_positions(strs):
+    """positions of the tokens that spell the type of a C-style cast: a whole pseudo token ("int *") or the
+    tokens of a parenthesis group that consists of type words and '*' only"""
+    out = set()
+    for i, x in enumerate(strs):
+        if " " in x and x in TYPES:      # model-side pseudo token such as "int *"
+            out.add(i)
+        if x == "(":
+            j = i + 1
+            while j < len(strs) and strs[j] in TYPEWORDS:
+                j += 1
+            if j > i + 1 and j < len(strs) and strs[j] == ")" and any(strs[k] != "*" for k in range(i + 1, j)):
+                out.update(range(i + 1, j))
+    return out
+
+
+def plain(strs):
+    """operator / operand tokens only (no parentheses, no cast types)"""
+    tp = type_positions(strs)
+    return [x for i, x in enumerate(strs) if x not in ("(", ")", ";") and i not in tp]
+
+
+def has_cast(e):
+    return e[0] == 't' or any(has_cast(k) for k in kids(e))
+
+
 def canon_tree(strs, links):
     """strs: token strings; links: {idx: (o1, o2)} with None for absent.
     Returns the set of (ordinal, str, ord1, ord2) over the tokens that are tree nodes, where ordinals count
@@ -145,8 +177,9 @@ def canon_tree(strs, links):
         if b is not None:
             nodes.add(b)
     ordn, k = {}, 0
+    tp = type_positions(strs)
     for i, s in enumerate(strs):
-        if s in (")", "]", ";") or (s == "(" and i not in nodes):
+        if s in (")", "]", ";") or (s == "(" and i not in nodes) or i in tp:
             continue
         ordn[i] = k
         k += 1
@@ -243,9 +276,31 @@ def gen(rng, d, cpp=False, wild=False):
         return ('g', f, g())
     if r < 0.85:
         return ('x', base(rng, d - 1, cpp, wild), g())
-    if r < 0.93:
+    if r < 0.91:
         return ('m', rng.choice([NID["x"], NID["y"], NID["n"], NID["m"]]), base(rng, d - 1, cpp, wild))
+    if r < 0.96:
+        return ('t', rng.randrange(len(TYPES)), cast_operand(rng, d - 1, cpp, wild))
     return ('r', g())
+
+
+def cast_operand(rng, d, cpp, wild):
+    """what follows a cast: mostly the prefix-unary shapes (the cast / binary-operator ambiguity of iscast)"""
+    r = rng.random()
+    lv = lambda: lval(rng, max(d - 1, 1), cpp, False)
+    if r < 0.6:
+        k = rng.randrange(10)
+        if k == 0:
+            return ('p', 6, ('p', 4, lv()))           # ++ * p
+        if k == 1:
+            return ('p', 7, ('p', 4, lv()))           # -- * q
+        if k == 2:
+            return ('p', rng.choice([6, 7]), lv())    # ++ x
+        if k == 3:
+            return ('t', rng.randrange(len(TYPES)), cast_operand(rng, d - 1, cpp, wild))
+        if k == 4:
+            return ('r', gen(rng, d, cpp, wild))
+        return ('p', rng.choice([0, 1, 2, 3, 4, 5]), lv() if rng.random() < 0.7 else gen(rng, d, cpp, wild))
+    return gen(rng, d, cpp, wild)
 
 
 def callee(rng, d, cpp, wild=False):
@@ -297,7 +352,7 @@ def enumerate_exprs(n, leaves, pre, post, bins, asgs, extras=True):
                 out += [('p', o, a) for o in pre]
                 out += [('q', o, a) for o in post]
                 if extras:
-                    out += [('f', a), ('m', NID["x"], a), ('r', a)]
+                    out += [('f', a), ('m', NID["x"], a), ('r', a), ('t', 0, a)]
             for i in range(1, k - 1):
                 for a, b in itertools.product(go(i), go(k - 1 - i)):
                     out += [('b', o, a, b) for o in bins]
